@@ -4,6 +4,7 @@ from __future__ import annotations
 import collections
 import importlib
 import json
+import os
 import subprocess
 from concurrent.futures import ThreadPoolExecutor
 from pathlib import Path
@@ -435,6 +436,43 @@ def search(ctx):
             if len(samples) < 3 and dw.action != "allow" and dc.action != "allow":
                 samples.append({"form": lab, "command": t, "verdict": dw.action, "inner_verdict": dc.action})
             dc = dc_local
+    # (2b) an inner command whose verdict depends on the directory it runs in: ./s.py is not inert, proj/s.py and sub/s.py are.
+    # None of the launchers' options moves the command there (uv's --project only locates pyproject.toml; --directory and
+    # env -C do change directory - then ./s.py is what Dippy reads, which errs on the asking side here: finding F17i is the
+    # mirrored layout), so every form must be judged like `python3 s.py` in the cwd
+    import shutil
+    import tempfile
+
+    import dippy.cli.uv as UV
+
+    sd = tempfile.mkdtemp(prefix="dippy-verif-c04cwd-")
+    try:
+        for sub in ("proj", "sub", "3.12"):
+            os.makedirs(os.path.join(sd, sub))
+            open(os.path.join(sd, sub, "s.py"), "w").write("import math\nprint(math.pi)\n")
+        open(os.path.join(sd, "s.py"), "w").write("import os\nos.system('true')\n")
+        inner = ["python3", "s.py"]
+        dci = analyze("python3 s.py", cfg, Path(sd))
+        cands = [(lab, t) for lab, t, _p, _j, ftag in forms(r, inner) if not (ftag or "").startswith(("ref=", "nomono", "F04"))]
+        for flag in sorted(UV.RUN_FLAGS_WITH_ARG):
+            if flag == "--directory":
+                continue  # this one does change directory: the command then runs DIR/s.py
+            for val in ("proj", "sub", "3.12"):
+                cands.append(("uv run %s DIR" % flag, "uv run %s %s python3 s.py" % (flag, val)))
+                if flag.startswith("--"):
+                    cands.append(("uv run %s=DIR" % flag, "uv run %s=%s python3 s.py" % (flag, val)))
+        for pre in ("env -u proj", "env --unset=proj", "env PROJ=proj", "nice -n 3", "timeout -k 3 5", "caffeinate -t 3", "arch -arm64", "xargs -n 1", "script -q proj", "command --"):
+            cands.append((pre.split(" ")[0] + " … (cwd-sensitive inner)", ("echo a | " if pre.startswith("xargs") else "") + pre + " python3 s.py"))
+        for lab, t in cands:
+            dw = analyze(t, cfg, Path(sd))
+            stats["evaluations"] += 1
+            stats["cwd_sensitive_forms"] += 1
+            if RANK[dw.action] < RANK[dci.action]:
+                # in front: reports that match a known finding must not use up the budget
+                vios.insert(0, {"input": {"command": t, "config": B.CONFIG_TEXT, "cwd": "<scratch: ./s.py imports os; proj/s.py, sub/s.py, 3.12/s.py are inert>", "inner": inner}, "form": lab, "finding_tag": None,
+                             "observed": {"wrapped": [dw.action, dw.reason], "inner": [dci.action, dci.reason]}, "required": "the launcher runs `python3 s.py` in the cwd: judged more leniently (%s) than that command (%s)" % (dw.action, dci.action), "oracle": "monotone(cwd-sensitive inner)"})
+    finally:
+        shutil.rmtree(sd, ignore_errors=True)
     workers = 12
     jails = [Jail(STUBS, real=REAL) for _ in range(workers)]
     try:
@@ -499,6 +537,25 @@ def replay(payload) -> int:
     from dippy.core.bash import bash_join
 
     inp = payload["input"]
+    if "command" in inp and str(inp.get("cwd", "")).startswith("<scratch"):
+        import shutil
+        import tempfile
+
+        sd = tempfile.mkdtemp(prefix="dippy-verif-c04cwd-")
+        try:
+            for sub in ("proj", "sub", "3.12"):
+                os.makedirs(os.path.join(sd, sub))
+                open(os.path.join(sd, sub, "s.py"), "w").write("import math\nprint(math.pi)\n")
+            open(os.path.join(sd, "s.py"), "w").write("import os\nos.system('true')\n")
+            d = analyze(inp["command"], _cfg(), Path(sd))
+            di = analyze(bash_join(inp["inner"]), _cfg(), Path(sd))
+            print("in %s (./s.py imports os; proj/s.py, sub/s.py, 3.12/s.py are inert)" % sd)
+            print("analyze(%r) ->" % inp["command"], d.action, "|", d.reason)
+            print("inner   (%r) ->" % bash_join(inp["inner"]), di.action, "|", di.reason)
+        finally:
+            shutil.rmtree(sd, ignore_errors=True)
+        print("required:", payload.get("required"))
+        return 1
     if "command" in inp:
         d = analyze(inp["command"], _cfg(), Path(inp.get("cwd", CWD)))
         print("analyze(%r) ->" % inp["command"], d.action, "|", d.reason)
